@@ -16,6 +16,9 @@ import Enc.Driver.JsonFields
 import Enc.Driver.JsonAny
 import Enc.Spec.Json.RoundTrip
 import Enc.Model.Json.MapOrder
+import Enc.Model.Json.EncFloat
+import Enc.Spec.Json.StdEncFloat
+import Enc.Driver.JsonTokAcc
 /-! line-protocol handlers, area `json` (syntax layer). -/
 namespace Enc.Driver.Json
 open Enc
@@ -209,6 +212,34 @@ def handle (op : String) (args : List String) : Option (String × String × Stri
   | "json.fieldsnil", [d] => Driver.JsonFields.runNil d
   | "json.fieldsvis", [d] => Driver.JsonFields.runVisible d
   | "json.fieldsdec", [cpu, d, obj] => Driver.JsonFields.runDecode cpu d obj
+  -- json.encfloat <float bits hex> <32|64> <prefix hex> <cmp: 7 × 0/1 = isNaN isInf abs≠0 <1e-6 ≥1e21 f32<1e-6 f32≥1e21>
+  --               <hex of strconv 'f' digits> <hex of strconv 'e' digits>
+  -- M = encodeFloat on the whole buffer; S = prefix ++ stdlib rule on the digits alone; the trusted strconv shape is
+  -- checked on every case (";shape" appended to M when the digits handed over do not have it)
+  | "json.encfloat", [_bits, w, pre, cmp, hf, he] => do
+    let w ← w.toNat?
+    let dst ← fromHex pre
+    let dF ← fromHex hf
+    let dE ← fromHex he
+    let cs := cmp.toList.map (· == '1')
+    if cs.length != 7 then none
+    let g (i : Nat) : Bool := cs.getD i false
+    let c : Model.Json.FloatCmp := ⟨g 0, g 1, g 2, g 3, g 4, g 5, g 6⟩
+    let finite := !c.isNaN && !c.isInf
+    let shapeOk := !finite || (Model.Json.shapeF dF && Model.Json.shapeE dE)
+    let m := match Model.Json.encodeFloat dst w c dF dE with
+      | .ok b => "ok:" ++ toHex b
+      | _ => "err"
+    let sp := match Spec.Json.stdEncodeFloat c.isNaN c.isInf c.nonZero (if w == 64 then c.lt64 else c.lt32)
+        (if w == 64 then c.ge64 else c.ge32) dF dE with
+      | some x => "ok:" ++ toHex (dst ++ x)
+      | none => "err"
+    pure (if shapeOk then m else m ++ ";shape", sp, "")
+  -- json.tokacc <hex>: every token with what the accessors report (Driver/JsonTokAcc.lean); json.tokaccstd: Go-side only
+  | "json.tokacc", [h] => do
+    let b ← fromHex h
+    pure (Driver.JsonTokAcc.run b)
+  | "json.tokaccstd", [_h] => pure ("-", "-", "")
   | "json.encint", [n] => do
     let i ← n.toInt?
     pure (toHex (Model.Json.appendInt i), toHex (Spec.Json.intString i), "")
